@@ -40,11 +40,13 @@ def __getattr__(name):
     @func.register(da.Array)
     def _(x, *args, **kwargs):
         wrapped_func = da.fft.fft_wrap(_fft_func)
-        if name.endswith("n") and len(args) < 2 and kwargs.get("axes") is None:
+        if name.endswith("n"):
             # Shape given without axes applies to the last axes, as in scipy
             # (dask would transform the first ones).
             s = args[0] if args else kwargs.get("s")
-            if s is not None:
+            axes = args[1] if len(args) > 1 else kwargs.get("axes")
+            if s is not None and axes is None:
+                args = args[:1] + args[2:]
                 kwargs["axes"] = tuple(range(x.ndim - len(s), x.ndim))
         return wrapped_func(x, *args, **kwargs)
 
